@@ -32,10 +32,12 @@ var curT *testing.T
 type Case struct {
 	Spec  specgen.Desc `json:"spec"`
 	Dials int          `json:"dials"`
+	// PreIDs: how often QUICSpec.TransportParameterIDs() is called before each dial (the documented pre-dial check)
+	PreIDs int `json:"pre_ids,omitempty"`
 }
 
 func genCase(t *rapid.T) Case {
-	c := Case{Dials: 2}
+	c := Case{Dials: 2, PreIDs: rapid.SampledFrom([]int{0, 0, 1, 2}).Draw(t, "pre-ids")}
 	c.Spec = specgen.Desc{Base: rapid.SampledFrom(specgen.BaseNames()).Draw(t, "base")}
 	if rapid.IntRange(0, 3).Draw(t, "own-tps") != 0 {
 		c.Spec.TPs = specgen.GenTPs(t, 2, 10)
@@ -140,6 +142,12 @@ func checkCase(c Case, u *vf.Unit) *vf.Verdict {
 		if err != nil {
 			return vf.Bad("C11/harness/spec-build", "%v", err)
 		}
+		// what the spec says before anything has been done with it (own reading of the list and of the suppression set)
+		want := expectedTPs(spec, nil)
+		var preReports [][]uint64
+		for i := 0; i < c.PreIDs; i++ {
+			preReports = append(preReports, spec.TransportParameterIDs())
+		}
 		var f specgen.Flight
 		pv := vf.Guard("C11/dial", func() *vf.Verdict {
 			f = specgen.CaptureBlackhole(curT, spec, nil, 150*time.Millisecond, true)
@@ -171,7 +179,14 @@ func checkCase(c Case, u *vf.Unit) *vf.Verdict {
 		if err != nil {
 			return vf.Bad("C11/tp/malformed", "dial %d: quic_transport_parameters does not parse: %v (%x)", dial+1, err, raw)
 		}
-		want := expectedTPs(spec, scid)
+		for i := range want {
+			if want[i].id == 0x0f && len(want[i].v) == 0 {
+				want[i].v = scid // an empty initial_source_connection_id is filled in with the connection's own ID
+			}
+		}
+		if after := expectedTPs(spec, scid); fmt.Sprint(after) != fmt.Sprint(want) {
+			return vf.Bad("C11/tp/spec-rewritten", "dial %d: the spec's parameter list read after %d TransportParameterIDs() calls and a dial is %s, before it was %s", dial+1, c.PreIDs, fmt.Sprint(after), fmt.Sprint(want))
+		}
 		var got []idval
 		for _, p := range wire {
 			got = append(got, idval{p.ID, p.Value})
@@ -199,8 +214,13 @@ func checkCase(c Case, u *vf.Unit) *vf.Verdict {
 			fold = append(fold, id)
 		}
 		sort.Slice(fold, func(i, j int) bool { return fold[i] < fold[j] })
-		if rep := spec.TransportParameterIDs(); fmt.Sprint(rep) != fmt.Sprint(fold) && !(len(rep) == 0 && len(fold) == 0) {
-			return vf.Bad("C11/tp/reported-ids", "dial %d: QUICSpec.TransportParameterIDs() = %v, canonicalised wire ids = %v", dial+1, rep, fold)
+		for i, rep := range append(preReports, spec.TransportParameterIDs(), spec.TransportParameterIDs()) {
+			if fmt.Sprint(rep) != fmt.Sprint(fold) && !(len(rep) == 0 && len(fold) == 0) {
+				return vf.Bad("C11/tp/reported-ids", "dial %d: QUICSpec.TransportParameterIDs() call %d (%d of them before the dial) = %v, canonicalised wire ids = %v", dial+1, i+1, len(preReports), rep, fold)
+			}
+		}
+		if c.PreIDs > 0 && len(spec.SuppressTransportParameters) > 0 {
+			u.Class("ids-reported-before-dial-with-suppression")
 		}
 		// ---- ClientHello against the ClientHelloSpec
 		chs := spec.ClientHelloSpec
